@@ -593,6 +593,7 @@ class _ServiceBrowserBase(RecordUpdateListener):
         'query_scheduler',
         'done',
         '_query_sender_task',
+        '_expired_at_start',
     )
 
     def __init__(
@@ -646,6 +647,7 @@ class _ServiceBrowserBase(RecordUpdateListener):
         )
         self.done = False
         self._query_sender_task: Optional[asyncio.Task] = None
+        self._expired_at_start: Set[DNSPointer] = set()
 
         if hasattr(handlers, 'add_service'):
             listener = cast('ServiceListener', handlers)
@@ -665,6 +667,16 @@ class _ServiceBrowserBase(RecordUpdateListener):
         Must be called by uses of this base class after they
         have finished setting their properties.
         """
+        # Pointers that have run out but are not purged yet are not reported
+        # by the call below: remember them, so that they count as new when
+        # they are seen again and are not reported as removed when purged
+        now = current_time_millis()
+        self._expired_at_start = {
+            record
+            for type_ in self.types
+            for record in self._cache.async_all_by_details(type_, _TYPE_PTR, _CLASS_IN)
+            if record.is_expired(now)
+        }
         self.zc.async_add_listener(self, [DNSQuestion(type_, _TYPE_PTR, _CLASS_IN) for type_ in self.types])
         # Only start queries after the listener is installed
         self._query_sender_task = asyncio.ensure_future(self._async_start_query_sender())
@@ -716,6 +728,12 @@ class _ServiceBrowserBase(RecordUpdateListener):
                 if TYPE_CHECKING:
                     record = cast(DNSPointer, record)
                 pointer = record
+                if old_record is not None and self._expired_at_start and old_record in self._expired_at_start:
+                    # Never reported to this browser
+                    self._expired_at_start.discard(old_record)
+                    if pointer.is_expired(now):
+                        continue
+                    old_record = None
                 for type_ in self.types.intersection(cached_possible_types(pointer.name)):
                     if old_record is None:
                         self._enqueue_callback(SERVICE_STATE_CHANGE_ADDED, type_, pointer.alias)
